@@ -1,6 +1,6 @@
 """C12 -- a Textgrid is an ordered, uniquely-named tier map and edits act tier-wise."""
 import itertools
-from .. import core, gen, tgops
+from .. import core, gen, tgops, tierops
 from . import c06, c07, c08, c09, c10
 
 ID = "C12"
@@ -99,8 +99,34 @@ def run(case):
     return core.run_guarded(f)
 
 
+def _emit_tierwise(case, r):
+    """the whole textgrid a copy-returning edit gave back, against the textgrid-level model (exact grids)"""
+    c = case["case"]
+    if c["op"] not in ("tgcrop", "tgerase", "tgspace") or c["scale"][0] != "dyadic" or ("ok" not in r and "err" not in r):
+        return None
+    if "ok" in r:
+        v = r["ok"]
+        out = "(Ok %s)" % tgops.ctg({"tiers": v["tiers"], "min": v["min"], "max": v["max"]})
+    else:
+        out = "(Err %s)" % r["err"]
+    tiers = c["tiers"]
+    if c["op"] == "tgcrop":
+        g = tgops.ctg({"tiers": tiers, "min": min(t["min"] for t in tiers), "max": max(t["max"] for t in tiers)})
+        return "TgCropC %s %s %s %s %s %s" % (g, core.cz(c["a"]), core.cz(c["b"]), tierops.CROP[c["mode"]], core.cbool(c["rebase"]), out)
+    a = c["args"]
+    if c["op"] == "tgerase":
+        g = tgops.ctg({"tiers": tiers, "min": 0, "max": c.get("tgmax", tiers[0]["max"])})
+        return "TgEraseC %s %s %s %s %s" % (g, core.cz(a["a"]), core.cz(a["b"]), core.cbool(a["shrink"]), out)
+    if c["op"] == "tgspace":
+        g = tgops.ctg({"tiers": tiers, "min": min(t["min"] for t in tiers), "max": max(t["max"] for t in tiers)})
+        return "TgSpaceC %s %s %s %s %s" % (g, core.cz(a["s"]), core.cz(a["d"]), tierops.SPACE[a["mode"]], out)
+    return None
+
+
 def emit(case, r):
-    if case["op"] == "tierwise" or "ok" not in r:
+    if case["op"] == "tierwise":
+        return _emit_tierwise(case, r)
+    if "ok" not in r:
         return None
     return tgops.emit_hist(r["ok"]["start"], case["args"]["ops"], r["ok"]["recs"])
 
